@@ -43,6 +43,10 @@ type SymStr struct{ B []*Term } // each BV8
 // converted back to an integer.
 type SymFloat struct{ T *Term }
 
+// BitLenV is the (lazy) result of big.Int.BitLen() on a symbolic value: comparisons with constants become a single
+// integer comparison; any other use materialises an ite chain.
+type BitLenV struct{ Abs *Term }
+
 type SymPtr struct {
 	Elems []Value // window; every element is a *Term of the same sort
 	Idx   *Term   // BV64, assumed (checked by the creator) < len(Elems)
